@@ -109,16 +109,16 @@ Definition effect_proposal_create (known : bool) (cur proposer prop : N) (v init
   then Some [Burn (bal proposer cur) v; Mint (mk proposer B_PROPFUND CUR_OLT prop) v]
   else None.
 
-(* PROPOSAL_FUND: Validate checks currency = OLT; NO sign check in Validate or handler *)
+(* PROPOSAL_FUND: Validate checks currency = OLT; the handler requires a positive contribution (65cdcf3) *)
 Definition effect_proposal_fund (known : bool) (cur funder prop : N) (v : Z) : option (list lop) :=
-  if known && is_olt cur
+  if known && is_olt cur && (0 <? v)
   then Some [Burn (bal funder cur) v; Mint (mk funder B_PROPFUND CUR_OLT prop) v]
   else None.
 
 (* PROPOSAL_WITHDRAW_FUNDS: escrow of the funder -> balance of the BENEFICIARY he names.
-   Validate checks currency = OLT; NO sign check in Validate or handler *)
+   Validate checks currency = OLT; the handler requires a positive amount (7960770) *)
 Definition effect_proposal_withdraw (known : bool) (cur funder benef prop : N) (v : Z) : option (list lop) :=
-  if known && is_olt cur
+  if known && is_olt cur && (0 <? v)
   then Some [Burn (mk funder B_PROPFUND CUR_OLT prop) v; Mint (bal benef cur) v]
   else None.
 
@@ -175,6 +175,24 @@ Definition fee_dist_ops (fp : N) (total minfee tp : Z) (vals : list (N * Z)) : l
   else [].
 Definition end_ops (l : gmap key Z) (h : N) (fp : N) (minfee tp : Z) (vals : list (N * Z)) : list lop :=
   fee_dist_ops fp (lget l (feepool fp)) minfee tp vals ++ maturity_ops l B_UNSTAKE h to_withdrawable.
+
+(* EndBlock, guilty verdict of an allegation (identity/validator_set_allegation.go ExecuteAllegationTracker):
+   penalty p = round-half-up(total stake of the validator * base% / baseDecimals) in whole OLT (computed with big.Float in
+   Go: exact while the numbers stay below 2^52 - C19 proves the size); the stake record of the validator's STAKE ADDRESS is
+   reduced by p all-or-nothing (cb71748) and, only then, the bounty program receives floor(p * 10^18 * bounty% / bountyDecimals);
+   the rest of the penalty is destroyed. *)
+Definition val_total (l : gmap key Z) (val : N) : Z :=
+  wsum (fun k => if (k_bucket k =? B_STAKE)%N && (k_sub k =? val)%N then 1 else 0) l / E18.
+Definition penalty_amount (total pct dec : Z) : Z := (2 * total * pct + dec) / (2 * dec).
+Definition penalty_core (stake val bounty : N) (p bpct bdec : Z) : list lop :=
+  [Burn (mk stake B_STAKE CUR_OLT val) (p * E18); Mint (bal bounty CUR_OLT) (p * E18 * bpct / bdec)].
+Definition penalty_ops (l : gmap key Z) (stake val bounty : N) (pct dec bpct bdec : Z) : list lop :=
+  let p := penalty_amount (val_total l val) pct dec in
+  if lget l (mk stake B_STAKE CUR_OLT val) - p * E18 <? 0 then [] else penalty_core stake val bounty p bpct bdec.
+(* verdicts: (stake address, validator) in the order they are decided; at most one per validator (harness condition) *)
+Definition end_ops_verdicts (l : gmap key Z) (h : N) (fp : N) (minfee tp : Z) (vals : list (N * Z))
+  (bounty : N) (pct dec bpct bdec : Z) (verdicts : list (N * N)) : list lop :=
+  end_ops l h fp minfee tp vals ++ flat_map (fun x => penalty_ops l x.1 x.2 bounty pct dec bpct bdec) verdicts.
 
 (* ---------------- the payload fields whose owners an effect function takes from ----------------
    (message type as in coq/gen/Facts_Signers.v, field names as in the Go struct): props/C03.v checks that each
